@@ -479,7 +479,7 @@ pub fn supervise(a: &HashMap<String, String>) -> i32 {
     }
 
     // ----- evidence
-    let mut distinct: HashSet<(u64, u64)> = HashSet::new();
+    let mut distinct: HashSet<(String, u64, u64)> = HashSet::new();
     let mut distinct_cases: HashSet<u64> = HashSet::new();
     let mut steps = 0u64;
     let mut switches = 0u64;
@@ -487,10 +487,11 @@ pub fn supervise(a: &HashMap<String, String>) -> i32 {
     let mut calls = 0u64;
     let mut worst = 0f64;
     let mut interleavings: HashSet<(u64, u64)> = HashSet::new();
-    for l in lines.values() {
+    for ((label, _), l) in lines.iter() {
         distinct_cases.insert(l.case_hash);
         if l.nontrivial {
-            distinct.insert((l.case_hash, l.trace_hash));
+            // the same case under another feature-set build is another configuration
+            distinct.insert((label.clone(), l.case_hash, l.trace_hash));
         }
         if l.overlap > 0 {
             overlap_runs += 1;
